@@ -14,7 +14,7 @@ impl Check for C01 {
     }
     fn runs(&self, tier: Tier) -> u64 {
         match tier {
-            Tier::Quick => 600_000,
+            Tier::Quick => 1_200_000,
             Tier::Thorough => 30_000_000,
         }
     }
